@@ -14,6 +14,8 @@ pub struct SimRun<O> {
     pub diverged: Option<String>,
     pub obs: O,
     pub datagrams: usize,
+    /// violations found by the scenario's after-runtime hooks
+    pub post: Vec<(String, String)>,
 }
 
 pub struct SimOutcome<O> {
@@ -32,7 +34,7 @@ where
     let prefix = prefix.to_vec();
     let r = run_exec(seed, wall_watchdog(), move || {
         let rt = runtime(seed);
-        let out = rt.block_on(async move {
+        let (mut out, sim) = rt.block_on(async move {
             let sim = Sim::new(&prefix, latency_us);
             let obs = make(sim.clone()).await;
             let (trace, diverged) = {
@@ -40,14 +42,26 @@ where
                 (ch.trace.clone(), ch.diverged.clone())
             };
             let datagrams = sim.fabric.datagrams_sent();
-            SimRun {
-                trace,
-                diverged,
-                obs,
-                datagrams,
-            }
+            (
+                SimRun {
+                    trace,
+                    diverged,
+                    obs,
+                    datagrams,
+                    post: vec![],
+                },
+                sim,
+            )
         });
+        // runtime teardown with whatever the scenario left alive
         drop(rt);
+        let hooks: Vec<_> = std::mem::take(&mut *sim.post.lock().unwrap());
+        for h in hooks {
+            out.post.extend(h());
+        }
+        let kept: Vec<_> = std::mem::take(&mut *sim.keep.lock().unwrap());
+        drop(kept);
+        drop(sim);
         out
     });
     SimOutcome {
@@ -147,7 +161,7 @@ pub fn explore_sim<O, M, J>(
         let choices: Vec<u32> = run.trace.iter().map(|c| c.chosen).collect();
         let j = judge(&run.obs, &o.panics, &choices);
         out.class(j.class);
-        for (k, m) in j.violations {
+        for (k, m) in j.violations.into_iter().chain(run.post.clone()) {
             out.violation(k, m, replay.clone());
         }
         if let Some(s) = j.sample {
